@@ -36,8 +36,8 @@ func init() {
 		ID:    "C07",
 		Title: "CTEs, derived tables and subqueries equal staged evaluation",
 		Rule: "rapid draws a document (table t with scalar columns and a nested array column, flat table t2) and either a composed pipeline " +
-			"(WITH c AS (Qi) Qo(c); Qo((Qi) x); chains c1->c2->outer; a CTE referenced twice through a self-join or through FROM plus an " +
-			"IN-subquery; FROM `c.items` on an array-valued CTE column) that must equal the staged evaluation over materialised intermediate " +
+			"(WITH c AS (Qi) Qo(c); Qo((Qi) x); chains c1->c2->outer; a CTE referenced twice through a self-join, through FROM plus an " +
+			"IN-subquery, through a filtering CTE plus a join, or through a filtered FROM plus an aggregating subquery; FROM `c.items` on an array-valued CTE column) that must equal the staged evaluation over materialised intermediate " +
 			"results passed in as plain input, or a subquery form (select-item subquery on the row / on `<-` the enclosing document, also correlated with the outer row through `<-.col`; IN-subquery on the row and on the root, " +
 			"[NOT] EXISTS correlated with the outer row) that must equal the standalone execution of the subquery text on that row (EXISTS: the " +
 			"reference 'some element satisfies p'). Non-trivial: inner result non-empty and the outer stage filters or projects it.",
@@ -198,7 +198,7 @@ func genOuterQuery(t *rapid.T, tb *Table, prefix string, label string) (string, 
 func genC07(t *rapid.T) any {
 	doc, sc := genC07Doc(t)
 	c := &C07Case{Doc: doc}
-	c.Form = rapid.SampledFrom([]string{"cte", "derived", "chain", "twice-join", "twice-insub", "path", "sel-sub", "sel-sub-root", "sel-sub-root", "in-sub", "in-sub-root", "exists", "exists"}).Draw(t, "form")
+	c.Form = rapid.SampledFrom([]string{"cte", "derived", "chain", "twice-join", "twice-insub", "twice-filter-join", "twice-filter-sub", "path", "sel-sub", "sel-sub-root", "sel-sub-root", "in-sub", "in-sub-root", "exists", "exists"}).Draw(t, "form")
 	switch c.Form {
 	case "cte":
 		qi, sch := genInnerQuery(t, sc.tb, "i1")
@@ -232,6 +232,22 @@ func genC07(t *rapid.T) any {
 		qi := fmt.Sprintf("SELECT %s, %s FROM t", sc.k, sc.v)
 		sub := sq.Render(sq.Cmp(rapid.SampledFrom(cmpOps).Draw(t, "subop"), sq.Col(sc.v), constFor(t, sc.tb.Col(sc.v), "subc")), nil)
 		qo := "SELECT * FROM %s WHERE " + sc.k + " IN (SELECT " + sc.k + " FROM `<-%s` WHERE " + sub + ")"
+		c.Composed = "WITH c AS (" + qi + ") " + fmt.Sprintf(qo, "c", "c")
+		c.Stages = []string{qi, fmt.Sprintf(qo, "m1", "m1")}
+		c.Ordered = true
+	case "twice-filter-join":
+		// a filtered read of the CTE followed by a second read of the same CTE
+		p := sq.Render(genPred(t, sc.tb, &PredSpec{Core: true}, 1, "w"), nil)
+		qi := fmt.Sprintf("SELECT %s, %s, %s FROM t", sc.k, sc.s, sc.v)
+		qd := "SELECT * FROM %s WHERE " + p
+		qo := "SELECT x." + sc.k + " AS xk, y." + sc.v + " AS yv FROM %s x JOIN %s y ON x." + sc.k + " = y." + sc.k
+		c.Composed = "WITH c AS (" + qi + "), d AS (" + fmt.Sprintf(qd, "c") + ") " + fmt.Sprintf(qo, "d", "c")
+		c.Stages = []string{qi, fmt.Sprintf(qd, "m1"), fmt.Sprintf(qo, "m2", "m1")}
+	case "twice-filter-sub":
+		// the outer query filters the CTE while a subquery re-reads all of it
+		p := sq.Render(genPred(t, sc.tb, &PredSpec{Core: true}, 1, "w"), nil)
+		qi := fmt.Sprintf("SELECT %s, %s, %s FROM t", sc.k, sc.s, sc.v)
+		qo := "SELECT " + sc.k + ", (SELECT COUNT(*) AS n, SUM(" + sc.v + ") AS sv FROM `<-%s`) AS total FROM %s WHERE " + p
 		c.Composed = "WITH c AS (" + qi + ") " + fmt.Sprintf(qo, "c", "c")
 		c.Stages = []string{qi, fmt.Sprintf(qo, "m1", "m1")}
 		c.Ordered = true
@@ -339,7 +355,7 @@ func checkC07(c *C07Case) Result {
 	res := Result{Labels: []string{"form:" + c.Form}}
 	rows, _ := c.Doc["t"].([]any)
 	switch c.Form {
-	case "cte", "derived", "chain", "twice-join", "twice-insub", "path":
+	case "cte", "derived", "chain", "twice-join", "twice-insub", "twice-filter-join", "twice-filter-sub", "path":
 		doc := val.CopyMap(c.Doc)
 		var last Out
 		firstLen := -1
